@@ -566,6 +566,23 @@ type fmtEval struct {
 }
 
 func evalFormatFn(c *Ctx, fn *ssa.Function, isSubject func(ssa.Value) bool, s string, depth int) *fmtEval {
+	return evalFormatFnOf(c, fn, isSubject, nil, "", s, depth)
+}
+
+// fieldSubject: the subject is the field `field` read from holder (a pointer
+// parameter).
+func fieldSubject(holder ssa.Value, field string) func(ssa.Value) bool {
+	return func(v ssa.Value) bool {
+		b, p, ok := fxFieldLoad(fxStrip(v))
+		return ok && b == holder && p == field
+	}
+}
+
+// evalFormatFnOf is evalFormatFn where the subject may be a field of holder
+// (holder != nil): then a static in-repo callee that receives holder itself —
+// as its receiver or as an argument — and compares the same field of it is
+// evaluated too, with its parameter standing for holder.
+func evalFormatFnOf(c *Ctx, fn *ssa.Function, isSubject func(ssa.Value) bool, holder ssa.Value, field string, s string, depth int) *fmtEval {
 	ev := &fmtEval{fn: fn, calls: map[*ssa.Call]*fmtEval{}, subject: isSubject}
 	if depth < 2 {
 		for _, call := range staticCallsIn(fn) {
@@ -578,6 +595,22 @@ func evalFormatFn(c *Ctx, fn *ssa.Function, isSubject func(ssa.Value) bool, s st
 					p := callee.Params[i]
 					ev.calls[call] = evalFormatFn(c, callee, func(v ssa.Value) bool { return fxStrip(v) == ssa.Value(p) }, s, depth+1)
 				}
+			}
+			if holder == nil || ev.calls[call] != nil {
+				continue
+			}
+			var inner ssa.Value
+			for i, a := range call.Call.Args {
+				if fxStrip(a) == holder && i < len(callee.Params) && types.Identical(callee.Params[i].Type(), holder.Type()) {
+					inner = callee.Params[i]
+				}
+			}
+			if inner == nil {
+				continue
+			}
+			sub := evalFormatFnOf(c, callee, fieldSubject(inner, field), inner, field, s, depth+1)
+			if len(sub.compared(c)) > 0 { // only callees that dispatch on the field
+				ev.calls[call] = sub
 			}
 		}
 	}
@@ -710,7 +743,7 @@ func loadMastFormatCase(c *Ctx, fn *ssa.Function, s string) (*loadFmtResult, str
 	if len(fn.Params) < 1 {
 		return nil, "LoadMast has no receiver"
 	}
-	ev := evalFormatFn(c, fn, loadMastSubject(fn), s, 0)
+	ev := evalFormatFnOf(c, fn, loadMastSubject(fn), fn.Params[0], "NodeFormat", s, 0)
 	res := &loadFmtResult{Open: ev.open(), StorePos: c.P.Pos(fn.Pos())}
 	ei := ir.ErrorResultIndex(fn.Signature)
 	for _, r := range ir.Returns(fn) {
@@ -744,7 +777,10 @@ func loadMastFormatCase(c *Ctx, fn *ssa.Function, s string) (*loadFmtResult, str
 // delegates to) compares Root.NodeFormat with.
 func loadMastCompared(c *Ctx, fn *ssa.Function) []string {
 	var out []string
-	for _, s := range evalFormatFn(c, fn, loadMastSubject(fn), "", 0).compared(c) {
+	if len(fn.Params) < 1 {
+		return nil
+	}
+	for _, s := range evalFormatFnOf(c, fn, loadMastSubject(fn), fn.Params[0], "NodeFormat", "", 0).compared(c) {
 		if s != "" {
 			out = append(out, s)
 		}
